@@ -84,35 +84,128 @@ def _worker(args):
                 res["extra"]["cvc5_disagreements"] = list(c["disagree"])[:2]
                 c["asked"] = c["agree"] = c["inconclusive"] = 0
                 c["disagree"] = []
+            from vf import symx as _symx
+            if _symx.TIMEOUT_LOG:
+                res.setdefault("extra", {})
+                res["extra"]["timed_out_explorations"] = list(_symx.TIMEOUT_LOG)
+                del _symx.TIMEOUT_LOG[:]
         return ("ok", res)
     except BaseException as e:  # noqa
         return ("err", "%s: %s\n%s" % (type(e).__name__, e, traceback.format_exc()))
 
 
+ITEM_CPU_BUDGET_S = int(os.environ.get("VERIF_ITEM_CPU_S", "1800"))
+SOLVER_CALL_LIMIT_S = int(os.environ.get("VERIF_SOLVER_CALL_S", "90"))     # wall time one z3 call may take (timeouts are <= 10 s)
+LOST_ITEMS = []      # work items whose process was stopped inside a z3 call that did not return (reported as undecided)
+
+
+def _child_cpu_s(pid):
+    try:
+        with open("/proc/%d/stat" % pid) as f:
+            parts = f.read().rsplit(")", 1)[1].split()
+        return (int(parts[11]) + int(parts[12])) / os.sysconf("SC_CLK_TCK")
+    except Exception:  # noqa
+        return 0.0
+
+
 def pmap(modname, fname, items, nproc=None, chunksize=1):
-    """Run vf.checks.<mod>.<fname>(item) over items in worker processes.
-    Returns list of results; raises HarnessError on worker failure."""
+    """Run vf.checks.<mod>.<fname>(item) over items, ONE FRESHLY FORKED PROCESS PER ITEM (at most nproc at a time).
+    Returns the list of results (in item order; an item lost to a solver hang is skipped and recorded in LOST_ITEMS);
+    raises HarnessError on worker failure.
+
+    Why not a pool of long-lived workers: (1) z3 keeps process-global state, so what a query costs depended on which
+    items the same worker had processed before -- run-to-run variation, up to a non-terminating nlsat factorisation
+    that ignores z3's own timeout; with one process per item every item starts from the parent's state and its
+    verdicts are reproducible.  (2) a process that stops answering can be killed without losing the others: if its
+    status byte says it is inside a z3 call, the item is counted undecided (solver did not return); if it is in Python
+    (the code under test or the harness), that is a harness error."""
+    import pickle
+    import tempfile
     items = list(items)
     nproc = min(nproc or NPROC, max(1, len(items)))
-    if nproc <= 1 or os.environ.get("VERIF_SERIAL"):
+    if os.environ.get("VERIF_SERIAL"):
         out = [_worker((modname, fname, it)) for it in items]
     else:
-        import multiprocessing as mp
-        from concurrent.futures import ProcessPoolExecutor
-        from concurrent.futures.process import BrokenProcessPool
-        ctx = mp.get_context("fork")
-        # an executor (not mp.Pool): a worker that dies (killed, out of memory) breaks the pool
-        # with an exception instead of leaving map() waiting for ever
+        from vf import symx as _symx
+        tmpd = tempfile.mkdtemp(prefix="vf_pmap_")
+        out = [None] * len(items)
+        pending = list(range(len(items)))[::-1]
+        active = {}
+        errs_died = []
         try:
-            with ProcessPoolExecutor(max_workers=nproc, mp_context=ctx) as pool:
-                out = list(pool.map(_worker, [(modname, fname, it) for it in items], chunksize=chunksize))
-        except BrokenProcessPool as e:
-            raise HarnessError("a worker process of %s.%s died (%s)" % (modname, fname, e))
+            while pending or active:
+                while pending and len(active) < nproc:
+                    i = pending.pop()
+                    respath = os.path.join(tmpd, "r%d.pkl" % i)
+                    stpath = os.path.join(tmpd, "s%d" % i)
+                    with open(stpath, "wb") as f:
+                        f.write(b"P")
+                    sys.stdout.flush()
+                    sys.stderr.flush()
+                    pid = os.fork()
+                    if pid == 0:
+                        code = 1
+                        try:
+                            _symx.STATUS["fd"] = os.open(stpath, os.O_WRONLY)
+                            r = _worker((modname, fname, items[i]))
+                            with open(respath + ".tmp", "wb") as f:
+                                pickle.dump(r, f)
+                            os.rename(respath + ".tmp", respath)
+                            code = 0
+                        except BaseException:  # noqa
+                            traceback.print_exc()
+                        finally:
+                            os._exit(code)
+                    active[pid] = (i, respath, stpath)
+                time.sleep(0.01)
+                for pid in list(active):
+                    i, respath, stpath = active[pid]
+                    done, status = os.waitpid(pid, os.WNOHANG)
+                    if done == 0:
+                        with open(stpath, "rb") as f:
+                            st_ = f.read(9)
+                        in_call_s = 0.0
+                        if st_[:1] == b"S" and len(st_) == 9:
+                            import struct
+                            in_call_s = time.time() - struct.unpack("d", st_[1:])[0]
+                        if in_call_s > SOLVER_CALL_LIMIT_S or _child_cpu_s(pid) > ITEM_CPU_BUDGET_S:
+                            with open(stpath, "rb") as f:
+                                where = f.read(1)
+                            os.kill(pid, 9)
+                            os.waitpid(pid, 0)
+                            del active[pid]
+                            if where == b"S":
+                                LOST_ITEMS.append({"function": "%s.%s" % (modname, fname), "item": i,
+                                                   "reason": "stopped inside a z3 call that had not returned after %d s (solver timeout %s ignored)"
+                                                             % (int(in_call_s), "was")})
+                                out[i] = ("lost", None)
+                            else:
+                                out[i] = ("err", "item %d of %s.%s used more than %d s of CPU outside the solver (hang of the code under test "
+                                                 "or of the harness)" % (i, modname, fname, ITEM_CPU_BUDGET_S))
+                        continue
+                    del active[pid]
+                    if os.path.exists(respath):
+                        with open(respath, "rb") as f:
+                            out[i] = pickle.load(f)
+                        os.unlink(respath)
+                    else:
+                        out[i] = ("err", "the process of item %d of %s.%s died (wait status %d)" % (i, modname, fname, status))
+        finally:
+            for pid in active:
+                try:
+                    os.kill(pid, 9)
+                    os.waitpid(pid, 0)
+                except OSError:
+                    pass
+            import shutil
+            shutil.rmtree(tmpd, ignore_errors=True)
     res = []
     errs = []
     for tag, val in out:
         if tag == "ok":
             res.append(val)
+        elif tag == "lost":
+            continue
         else:
             errs.append(val)
     if errs:
@@ -280,7 +373,15 @@ class Run:
             except HarnessError as e:
                 self.harness_errors.append(str(e))
                 results = [{"reproduced": False, "detail": "replay failed"}] * len(cands)
+        soft_unconfirmed = 0
         for c, r in zip(cands, results):
+            if not r.get("reproduced") and c.get("_soft"):
+                # from a path with an undecided fork or an abstracted product: the solver's model proved nothing and the
+                # concrete replay found nothing -- undecided, not an encoding defect
+                soft_unconfirmed += 1
+                if soft_unconfirmed <= 3:
+                    write_replay(self.pid + "_soft", c)       # kept for inspection; not an error
+                continue
             if not r.get("reproduced"):
                 unconfirmed += 1
                 if len(self.notes) < 5:
@@ -307,7 +408,8 @@ class Run:
             "exhaustive": bool(exhaustive),
             "obligations": st["obligations"],
             "discharged": st["discharged"],
-            "undecided": st["undecided"],
+            "undecided": st["undecided"] + len(LOST_ITEMS) + soft_unconfirmed,
+            "soft_candidates_not_confirmed_by_replay": soft_unconfirmed,
             "refuted_before_replay": st["refuted"],
             "incomplete_shapes": st["incomplete"],
             "paths": st["paths"],
@@ -332,8 +434,14 @@ class Run:
             cov["disagreements_checked"] = len(cands)
         cov.update(self.extra)
         cov["paths_timed_out"] = st.get("timeouts", 0)
+        cov["paths_undecided_solver_exceeded_path_budget"] = st.get("solver_timeouts", 0)
+        mine = [x for x in LOST_ITEMS]
+        cov["work_items_lost_to_solver_hang"] = mine
+        if mine:
+            print("NOTE: %d work item(s) were stopped inside a z3 call that did not return; their obligations are undecided "
+                  "(not discharged): %s" % (len(mine), mine[:3]))
         if st.get("timeouts", 0):
-            self.harness_errors.append("%d path(s) of the code under test exceeded the per-path wall budget "
+            self.harness_errors.append("%d path(s) of the code under test exceeded the per-path CPU budget "
                                        "(a hang of the real code or a harness that is too slow): inconclusive" % st["timeouts"])
         if self.extra.get("cvc5_disagreements"):
             self.harness_errors.append("z3 and cvc5 disagree on a sampled query: %r" % self.extra["cvc5_disagreements"][:1])
@@ -368,7 +476,7 @@ class Run:
               "queries=%s solver_s=%.1f candidates=%d unconfirmed=%d "
               "violations=%d wall=%.1fs"
               % (self.pid, self.tier, st["obligations"], st["discharged"],
-                 st["undecided"], st["paths"], st["queries"], st["solver_s"],
+                 st["undecided"] + len(LOST_ITEMS) + soft_unconfirmed, st["paths"], st["queries"], st["solver_s"],
                  len(cands), unconfirmed, len(violations), wall))
         if violations:
             return EXIT_VIOLATION
